@@ -16,7 +16,7 @@ from ..core import MachineryError
 from .. import tlc
 from ..util import as_list, tmp_dir, dir_digest
 from .. import datasets as D
-from .c05 import ints
+from .c05 import ints, ObservationError
 from .c09 import rat, q, curate_single_origin
 from . import merge_common
 
@@ -113,7 +113,7 @@ def project(ctx, m, ds, out, label, factor, chmap_orig):
     dur = load('clusters.peakToTrough') * rate / 1000.0
     rec['cdur'] = [[1, 0] if np.isnan(x) else [0, int(round(float(x)))] for x in dur]
     if not np.array_equal(np.nan_to_num(dur), np.rint(np.nan_to_num(dur))):
-        raise MachineryError('durations are not whole samples: %r' % (dur,))
+        raise ObservationError('durations are not whole samples: %r' % (dur,))
     rec['cdepthq'] = q(load('clusters.depths'))
     rec['sdepthq'] = q(load('spikes.depths').astype(np.float64))
     rec['rawInd'] = as_list(load('channels.rawInd'))
@@ -300,7 +300,7 @@ def run(ctx, prop):
         raise MachineryError('read %d of %d cases' % (len(cases), n))
     rng = np.random.RandomState(ctx.seed + 13)
     recs = []
-    reps = 4 if ctx.quick else 24
+    reps = 4 if ctx.quick else 80
     with tmp_dir(ctx) as d:
         k = 0
         for rep in range(reps):
@@ -321,7 +321,7 @@ def run(ctx, prop):
                         ctx.violation(key, msg, dict(case=case, k=k))
                 rec['id'] = len(recs) + 1
                 recs.append(rec)
-        for j in range(40 if ctx.quick else 300):
+        for j in range(40 if ctx.quick else 1200):
             rec = None
             with ctx.guard(prop + '.merged', dict(j=j)):
                 rec = merged_case(ctx, d, rng, j)
